@@ -49,7 +49,13 @@ Templates == <<
   <<F("(","lamp"), F("x","recbc"), F(",","lamp"), F("y","lamp"), F(")","lamb"), F("=>","lama"), F("x","sym"), F("+","sym"), F("y","")>>,
   <<F("x","lamb"), F("=>","lama"), F("x","sym"), F("*","sym"), F("2","")>>,
   <<F("z","asg"), F("=","asg"), F("a","sym"), F("+","sym"), F("b","")>>,
-  <<F("max","tight"), F("(","callo"), F("a","listbc"), F(",","callc"), F("[","listo"), F("b","listo"), F("]","callc"), F(")","")>>
+  <<F("max","tight"), F("(","callo"), F("a","listbc"), F(",","callc"), F("[","listo"), F("b","listo"), F("]","callc"), F(")","")>>,
+  \* a function body has its own copy of the operator-chain rule: the same gaps inside it
+  <<F("x","lamb"), F("=>","lama"), F("p","wordb"), F("and","worda"), F("q","wordb"), F("or","worda"), F("r","")>>,
+  <<F("l","wordb"), F("where","worda"), F("x","lamb"), F("=>","lama"), F("x","sym"), F(">","sym"), F("2","wordb"), F("or","worda"), F("x","sym"), F("<","sym"), F("0","")>>,
+  <<F("(","lamp"), F("x","lamp"), F(")","lamb"), F("=>","lama"), F("not","nota"), F("x","sym"), F("??","sym"), F("p","wordb"), F("and","worda"), F("-","tight"), F("x","sym"), F(".<","sym"), F("1","")>>,
+  \* number tokens against the operators that begin with a dot
+  <<F("2","sym"), F(".==","sym"), F("b","sym"), F("+","sym"), F("1_000","sym"), F(".<","sym"), F("3","sym"), F(".!=","sym"), F("0.5","sym"), F(".>=","sym"), F("7","")>>
 >>
 
 Canon(kind) == IF "s" \in Admit(kind) THEN "s" ELSE ""
